@@ -41,6 +41,28 @@ func stubCode(v uint32) []byte {
 	return []byte{0xB8, byte(v), byte(v >> 8), byte(v >> 16), byte(v >> 24), 0xC3} // mov eax,imm32; ret
 }
 
+// stubCodeN is stubCode filled up to n bytes: the whole region is written, wherever page boundaries fall inside it.
+func stubCodeN(v uint32, n int) []byte {
+	c := stubCode(v)
+	for len(c) < n {
+		c = append(c, 0x90)
+	}
+	return c
+}
+
+// safeWrite is the provided writer with a fault turned into an error (a region that cannot be written must not take
+// the other observations down with it).
+func safeWrite(s *Space, code []byte) (err error) {
+	old := debug.SetPanicOnFault(true)
+	defer func() {
+		debug.SetPanicOnFault(old)
+		if r := recover(); r != nil {
+			err = fmt.Errorf("writing %d bytes to the region at %#x faulted: %v", len(code), s.Addr, r)
+		}
+	}()
+	return Write(s, code)
+}
+
 // holderRound releases `gor` goroutines at once against the fallback allocator.
 func holderRound(rep *vmon.Report, rng *vmon.Rng, gor int, maxSize int, reset bool, round int) {
 	if reset {
@@ -213,7 +235,7 @@ func TestC20Holder(t *testing.T) {
 	}
 	// executing a stub written into the fallback reserve through the public writer
 	atomic.StoreUintptr(&placeHolderIns.off, placeHolderIns.min)
-	for i := 0; i < 8; i++ {
+	for i := 0; i < int((placeHolderIns.max-placeHolderIns.min)/48); i++ {
 		addr, sp, err := acquireFromHolder(48)
 		if err != nil {
 			rep.Violate("C20/holder-unexpected-error", err.Error(), nil)
@@ -221,7 +243,10 @@ func TestC20Holder(t *testing.T) {
 		}
 		s := &Space{Addr: addr, Space: sp, typ: TypeHolder}
 		v := uint32(0xC20000 + i)
-		if err := Write(s, stubCode(v)); err != nil {
+		if (addr&4095)+48 > 4096 {
+			rep.Stat("holder_regions_straddling_a_page_written", 1)
+		}
+		if err := safeWrite(s, stubCodeN(v, 48)); err != nil {
 			rep.Violate("C20/holder-write-failed", err.Error(), nil)
 			continue
 		}
@@ -287,7 +312,8 @@ func TestC20Acquire(t *testing.T) {
 				v := uint32(g<<20 | i)
 				code := stubCode(v)
 				if sz >= len(code) {
-					if err := Write(s, code); err != nil {
+					code = stubCodeN(v, sz)
+					if err := safeWrite(s, code); err != nil {
 						rep.Violate("C20/write-failed", err.Error(), nil)
 						continue
 					}
@@ -445,8 +471,13 @@ func TestC20MmapDenied(t *testing.T) {
 		}
 		end = s.Addr + 48
 		v := uint32(0xDE0000 + holder)
-		if err := Write(s, stubCode(v)); err != nil {
+		if (s.Addr&4095)+48 > 4096 {
+			rep.Stat("holder_regions_straddling_a_page_written", 1)
+		}
+		if err := safeWrite(s, stubCodeN(v, 48)); err != nil {
 			rep.Violate("C20/holder-write-failed", err.Error(), nil)
+		} else if back := vmon.ReadMem(s.Addr, 48); string(back) != string(stubCodeN(v, 48)) {
+			rep.Violate("C20/holder-write-failed", fmt.Sprintf("region at %#x reads back %x", s.Addr, back), nil)
 		} else if got := callStub(s.Addr); uint32(got) != v {
 			rep.Violate("C20/holder-stub-not-executable", fmt.Sprintf("stub at %#x returned %#x", s.Addr, got), nil)
 		}
